@@ -392,10 +392,74 @@ def _graham(rc: RuleCtx):
     piv = False
     for c in mins:
         key = [kw.value for kw in c.keywords if kw.arg == "key"]
-        if key and isinstance(key[0], ast.Lambda) and ast.unparse(key[0].body).replace(" ", "") in ("(p[0],p[1])",):
-            piv = True
+        if key and isinstance(key[0], ast.Lambda) and len(key[0].args.args) == 1:
+            body = ast.unparse(key[0].body).replace(" ", "").replace(key[0].args.args[0].arg + "[", "p[")
+            if body in ("(p[0],p[1])", "[p[0],p[1]]"):
+                piv = True
     if piv:
         res.ok("H5", "convex_hull._sort_points:pivot", "pivot == min by (x, y)")
     else:
-        res.violation("H5", fs.module, fs.name, fs.node, "the sort does not pivot on the lowest-leftmost point (min by (x, y))", "", "min(points, key=lambda p: (p[0], p[1]))",
-                      construct="pivot")
+        _pivot_by_index(rc, fs)
+
+
+def _pivot_by_index(rc: RuleCtx, fs):
+    """The pivot chosen through row indices (argmin idioms).  Facts read off the evaluated prefix of _sort_points:
+    the pivot is points[I]; I is a *row* of points on every case - an argmin taken over a sub-selection points[T, .]
+    is a position inside T and has to be mapped back through T."""
+    res = rc.res
+    ev = rc.new_eval()
+    pts = ev.point("points", True)
+    ev.len_map = {"points": sym("n")}
+    fr = Frame(ev, fs, 0)
+    env = {"points": pts}
+    for st in fs.node.body:
+        try:
+            fr.block([st], env, TRUE)
+        except Unsupported:
+            break
+    px, py = pts.items
+    found = []
+    for nme, v in env.items():
+        cases = []
+        good = True
+        for g, c in cases_of(v):
+            if not (isinstance(c, Vec) and len(c.items) == 2 and all(isinstance(k, Rat) for k in c.items)):
+                good = False
+                break
+            ax, ay = single_atom(c.items[0]), single_atom(c.items[1])
+            if not (ax is not None and ay is not None and ax.name == "at" and ay.name == "at" and ax.args[0].equals(px) and ay.args[0].equals(py)
+                    and ax.args[1].equals(ay.args[1])):
+                good = False
+                break
+            cases.append((g, ax.args[1]))
+        if good and cases and nme != "points":
+            found.append((nme, cases))
+    if not found:
+        raise AnalysisError("convex_hull._sort_points: the pivot is neither min(points, key=(x, y)) nor points[<row index>] - shape not recognised")
+    nme, cases = found[0]
+    tie_handled = False
+    for g, I in cases:
+        a = single_atom(I)
+        if a is not None and a.name == "argmin" and a.args[0].equals(px):
+            continue                        # leftmost row (first of equals): fine when no other row ties, see below
+        if a is not None and a.name in ("at", "item") and len(a.args) == 2:
+            T, pos = a.args
+            b = single_atom(pos)
+            inner = single_atom(b.args[0]) if b is not None and b.name == "argmin" else None
+            if inner is not None and inner.name in ("at", "take") and inner.args[0].equals(py) and inner.args[1].equals(T):
+                tie_handled = True
+                continue
+        if a is not None and a.name == "argmin":
+            inner = single_atom(a.args[0])
+            if inner is not None and inner.name in ("at", "take", "mask") and not inner.args[0].equals(px):
+                res.violation("H5", fs.module, fs.name, fs.node,
+                              "the pivot row is an argmin taken over a sub-selection of the points and used directly as a row of the full array: it is a position inside "
+                              "the sub-selection (index-space mix-up) - with several leftmost points the scan starts from the wrong, possibly interior, point",
+                              _short(I, 160), "<selection>[np.argmin(points[<selection>, 1])]", construct="pivot index space")
+                return
+        raise AnalysisError(f"convex_hull._sort_points: pivot row {_short(I, 80)} not recognised")
+    if tie_handled:
+        res.ok("H5", "convex_hull._sort_points:pivot", "pivot == points[row of the smallest x, ties broken by the smallest y (mapped back to rows)]")
+    else:
+        res.violation("H5", fs.module, fs.name, fs.node, "the pivot is the first leftmost point: ties on x are not broken by y, so it need not be the lowest-leftmost point",
+                      str([(_short(g, 60), _short(I, 80)) for g, I in cases]), "min by (x, y)", construct="pivot ties")
